@@ -50,6 +50,19 @@ fn case_json(f: &F, p: Pipe, s: &str, expect: Option<&R>) -> J {
 }
 
 pub fn replay_case(c: &J) -> Result<(), String> {
+    if c["op"].as_str() == Some("derived_constructor") {
+        use narsese::enum_narsese::Term;
+        let (s, p) = (R::from_json(&c["s"]), R::from_json(&c["p"]));
+        let se = |x: &R| R::node(Tag::SetExt, vec![x.clone()]);
+        let si = |x: &R| R::node(Tag::SetInt, vec![x.clone()]);
+        let (got, expect) = match c["name"].as_str().unwrap_or("") {
+            "new_instance" => (Term::new_instance(s.build(), p.build()), R::pair(Tag::Inh, se(&s), p.clone())),
+            "new_property" => (Term::new_property(s.build(), p.build()), R::pair(Tag::Inh, s.clone(), si(&p))),
+            "new_instance_property" => (Term::new_instance_property(s.build(), p.build()), R::pair(Tag::Inh, se(&s), si(&p))),
+            _ => (Term::new_equivalence_retrospective(s.build(), p.build()), R::pair(Tag::EquivPred, p.clone(), s.clone())),
+        };
+        return if R::canon_of_term(&got) == expect.canon() { Ok(()) } else { Err(format!("derived constructor gives {}", R::canon_of_term(&got).show())) };
+    }
     let f = fmts::by_name(c["format"].as_str().unwrap_or("ascii"));
     let p = if c["pipeline"].as_str() == Some("LexFold") { Pipe::LexFold } else { Pipe::Enum };
     let expect = if c["expect"].is_null() { None } else { Some(R::from_json(&c["expect"])) };
@@ -76,6 +89,33 @@ pub fn run(run: &Run) {
     );
     run.assume("expected meaning taken from the property statement (first placeholder = image index; retrospective equivalence = swapped predictive)");
     let tier = run.tier;
+    // the derived constructors themselves (the mechanism both pipelines rely on): built directly,
+    // for every operand pair, they must be the desugared value
+    {
+        use narsese::enum_narsese::Term;
+        let f = fmts::ascii();
+        let mut ops_: Vec<R> = u::all_atoms(&f);
+        ops_.extend(u::reps(&f).into_iter().filter(|r| !r.tag.is_atom()));
+        let se = |x: &R| R::node(Tag::SetExt, vec![x.clone()]);
+        let si = |x: &R| R::node(Tag::SetInt, vec![x.clone()]);
+        for s in &ops_ {
+            for p in &ops_ {
+                let table: Vec<(&str, Term, R)> = vec![
+                    ("new_instance", Term::new_instance(s.build(), p.build()), R::pair(Tag::Inh, se(s), p.clone())),
+                    ("new_property", Term::new_property(s.build(), p.build()), R::pair(Tag::Inh, s.clone(), si(p))),
+                    ("new_instance_property", Term::new_instance_property(s.build(), p.build()), R::pair(Tag::Inh, se(s), si(p))),
+                    ("new_equivalence_retrospective", Term::new_equivalence_retrospective(s.build(), p.build()), R::pair(Tag::EquivPred, p.clone(), s.clone())),
+                ];
+                for (name, got, expect) in table {
+                    run.eval(1);
+                    let g = R::canon_of_term(&got);
+                    if g != expect.canon() {
+                        run.violation(&format!("Term::{name}({}, {}) = {} but the documented meaning is {}", s.show(), p.show(), g.show(), expect.canon().show()), json!({"op": "derived_constructor", "name": name, "s": s.to_json(), "p": p.to_json()}), &[]);
+                    }
+                }
+            }
+        }
+    }
     for f in fmts::all() {
         let mut cases: Vec<(String, Option<R>)> = vec![];
         let mut ops_: Vec<R> = u::all_atoms(&f);
